@@ -294,6 +294,11 @@ Step(e) ==
       [] failed /\ e.ev # "Crash" -> IF e.ev = "Alloc" /\ e.sem \in NeverCollectedSem /\ e.id \notin DOMAIN objs
                              THEN DoAllocImmOnly(e) ELSE Skip
       [] e.ev = "GCRequest" -> SetAux("exh", e.exhaustive)
+      \* C11: a forced user request returns only after a collection has ended (it is blocked until
+      \* then even when another request was already pending)
+      [] e.ev = "GCReturn"  -> IF G("C11:forced-request-returned-before-a-collection-ended",
+                                    "pauses" \in DOMAIN e => e.pauses >= 1)
+                               THEN Skip ELSE FailStep
       [] e.ev = "GridStart" -> SetAux("grid", TRUE)
       [] e.ev = "GridEnd"   -> SetAux("grid", FALSE)
       [] e.ev = "AllocFail" -> IF AllocFailOK(e) THEN Skip ELSE FailStep
